@@ -43,6 +43,27 @@ def sleb(v):
             return bytes(out)
 
 
+def uleb_wide(v, n):
+    """v in n bytes (n at least the shortest length, at most 5): the shortest form followed by empty continuation groups"""
+    b = bytearray(uleb(v))
+    while len(b) < n:
+        b[-1] |= 0x80
+        b.append(0)
+    return bytes(b)
+
+
+def sleb_wide(v, n, trunc=False):
+    """a 32-bit signed v in n bytes, sign-extended; with trunc and n = 5 the last byte carries bits 28..31 only"""
+    b = bytearray(sleb(v))
+    fill = 0x7F if v < 0 else 0
+    while len(b) < n:
+        b[-1] |= 0x80
+        b.append(fill)
+    if trunc and len(b) == 5:
+        b[4] &= 0x0F
+    return bytes(b)
+
+
 def utf16_units(s):
     out = []
     for ch in s:
@@ -98,9 +119,10 @@ class Try:
 
 
 class Code:
-    def __init__(self, registers, ins, outs, insns, tries=(), pad_unit=0):
+    def __init__(self, registers, ins, outs, insns, tries=(), pad_unit=0, leb_seed=None):
         self.registers, self.ins, self.outs, self.insns, self.tries = registers, ins, outs, list(insns), list(tries)
         self.pad_unit = pad_unit
+        self.leb_seed = leb_seed      # None: every LEB128 of the handler lists in its shortest form; a seed: lengths chosen at random
 
 
 class _Member:
@@ -291,15 +313,22 @@ class DexBuilder:
                 k = (tuple(t.handlers), t.catch_all)
                 if k not in lists:
                     lists.append(k)
-            hl += uleb(len(lists))
+            if code.leb_seed is None:
+                U, S = uleb, sleb
+            else:
+                import random
+                lr = random.Random(code.leb_seed)
+                U = lambda v: uleb_wide(v, lr.randint(len(uleb(v)), 5) if lr.random() < 0.5 else 0)
+                S = lambda v: sleb_wide(v, lr.randint(len(sleb(v)), 5) if lr.random() < 0.7 else 0, trunc=lr.random() < 0.5)
+            hl += U(len(lists))
             for k in lists:
                 offs[k] = len(hl)
                 hs, ca = k
-                hl += sleb(-len(hs) if ca is not None else len(hs))
+                hl += S(-len(hs) if ca is not None else len(hs))
                 for (ty, addr) in hs:
-                    hl += uleb(self._tidx[ty]) + uleb(addr)
+                    hl += U(self._tidx[ty]) + U(addr)
                 if ca is not None:
-                    hl += uleb(ca)
+                    hl += U(ca)
             for t in code.tries:
                 out += struct.pack("<IHH", t.start, t.count, offs[(tuple(t.handlers), t.catch_all)])
             out += hl
